@@ -36,8 +36,15 @@ def _order(items):
     return xs
 
 
+class _Meta(type):
+    """isinstance(x, set) written inside a sigma module still accepts ordinary sets (created by C code)."""
+
+    def __instancecheck__(cls, inst):
+        return isinstance(inst, cls.__mro__[-2] if cls.__mro__[-2] is not object else cls) or type.__instancecheck__(cls, inst)
+
+
 def _mk(base, name):
-    class P(base):
+    class P(base, metaclass=_Meta):
         __slots__ = ()
 
         def __iter__(self):
@@ -118,3 +125,69 @@ def uninstall():
                 del mod.__dict__["set"]
             if mod.__dict__.get("frozenset") is PermFrozenSet:
                 del mod.__dict__["frozenset"]
+
+
+# ---------------------------------------------------------------- import hook: every set the library source creates
+# Loads the sigma.* modules from their real source files with two purely syntactic, meaning-preserving changes
+#   {a, b}            ->  set([a, b])
+#   {x for x in xs}   ->  set([x for x in xs])
+# and with the names set/frozenset bound to the order-permuting subclasses BEFORE the module body runs, so
+# that also `field(default_factory=set)` and class-level `set()` calls create permuted sets.
+import ast
+import importlib.abc
+import importlib.machinery
+
+
+class _Rewriter(ast.NodeTransformer):
+    def visit_SetComp(self, node):
+        self.generic_visit(node)
+        return ast.copy_location(ast.Call(func=ast.Name(id="set", ctx=ast.Load()), args=[ast.ListComp(elt=node.elt, generators=node.generators)], keywords=[]), node)
+
+    def visit_Set(self, node):
+        self.generic_visit(node)
+        return ast.copy_location(ast.Call(func=ast.Name(id="set", ctx=ast.Load()), args=[ast.List(elts=node.elts, ctx=ast.Load())], keywords=[]), node)
+
+
+REWRITTEN = []  # (module, number of set displays / comprehensions rewritten)
+
+
+class _Loader(importlib.machinery.SourceFileLoader):
+    def get_code(self, fullname):  # never from a byte-code cache
+        path = self.get_filename(fullname)
+        return self.source_to_code(self.get_data(path), path)
+
+    def source_to_code(self, data, path, *, _optimize=-1):
+        tree = ast.parse(data, filename=path)
+        n = sum(isinstance(x, (ast.Set, ast.SetComp)) for x in ast.walk(tree))
+        tree = ast.fix_missing_locations(_Rewriter().visit(tree))
+        REWRITTEN.append((path, n))
+        return compile(tree, path, "exec", dont_inherit=True, optimize=_optimize)
+
+    def exec_module(self, module):
+        module.__dict__["set"] = PermSet
+        module.__dict__["frozenset"] = PermFrozenSet
+        super().exec_module(module)
+
+
+class _Finder(importlib.abc.MetaPathFinder):
+    def find_spec(self, fullname, path, target=None):
+        if fullname != "sigma" and not fullname.startswith("sigma."):
+            return None
+        spec = importlib.machinery.PathFinder.find_spec(fullname, path)
+        if spec is None or not isinstance(spec.loader, importlib.machinery.SourceFileLoader):
+            return None
+        spec.loader = _Loader(spec.loader.name, spec.loader.path)
+        return spec
+
+
+_FINDER = [None]
+
+
+def install_import_hook():
+    """Must run before the sigma modules are imported; already imported ones are dropped and re-imported on demand."""
+    if _FINDER[0] is None:
+        _FINDER[0] = _Finder()
+        sys.meta_path.insert(0, _FINDER[0])
+        for name in [n for n in sys.modules if n == "sigma" or n.startswith("sigma.")]:
+            del sys.modules[name]
+    return _FINDER[0]
